@@ -377,6 +377,17 @@ shape('shape_authority_recv', 'service/authority.rs', 'recv', _ctxacc)
 shape('shape_authority_on_tick', 'service/authority.rs', 'on_tick', _ctxacc)
 shape('shape_authority_on_command', 'service/authority.rs', 'on_command', _ctxacc)
 
+
+# ---- the premise of the schedule model: every accessor of the shared NetDriverContext is ONE critical
+# section that waits for the lock (self.detail.lock().unwrap()...), never a try_lock that may skip
+tj = _strip_comments(src('runtime/j1939.rs'))
+for acc in ('is_rx_timeout', 'rx_mark', 'set_tx_last_message', 'set_rx_last_message', 'tx_last_message', 'rx_last_message', 'rx_count'):
+    m = re.search(r'impl NetDriverContext \{.*?\bpub fn %s\s*\([^)]*\)[^{]*\{(.*?)\n    \}' % acc, tj, re.S)
+    body = m.group(1) if m else ''
+    if not m or body.count('self.detail.lock().unwrap()') != 1 or 'try_lock' in body or body.count(';') > 1:
+        errors.append('runtime/j1939.rs NetDriverContext::%s is no longer a single lock().unwrap() access' % acc)
+defs.append(('ctx_accessors_single_locked_access', 'bool', 'true', 'runtime/j1939.rs: every NetDriverContext accessor is one self.detail.lock().unwrap() critical section'))
+
 EXTRA = os.path.join(os.path.dirname(os.path.abspath(__file__)), 'rs2v_extra.py')
 if os.path.exists(EXTRA):
     exec(compile(open(EXTRA).read(), EXTRA, 'exec'))
